@@ -333,8 +333,8 @@ func (r *run) answerMsg(z string, neg bool, ttl uint32) (*dns.Msg, *dns.Msg) {
 	m.RecursionAvailable = true
 	if neg {
 		m.Rcode = dns.RcodeNameError
-		m.Ns = []dns.RR{&dns.SOA{Hdr: dns.RR_Header{Name: r.zname(z), Rrtype: dns.TypeSOA, Class: dns.ClassINET, Ttl: 300},
-			Ns: "ns." + r.zname(z), Mbox: "h." + r.zname(z), Serial: 1, Refresh: 60, Retry: 60, Expire: 60, Minttl: 300}}
+		m.Ns = []dns.RR{&dns.SOA{Hdr: dns.RR_Header{Name: r.zname(z), Rrtype: dns.TypeSOA, Class: dns.ClassINET, Ttl: 1},
+			Ns: "ns." + r.zname(z), Mbox: "h." + r.zname(z), Serial: 1, Refresh: 60, Retry: 60, Expire: 60, Minttl: 1}}
 	} else {
 		m.Answer = []dns.RR{&dns.A{Hdr: dns.RR_Header{Name: name, Rrtype: dns.TypeA, Class: dns.ClassINET, Ttl: ttl}, A: []byte{192, 0, 2, 1}}}
 	}
